@@ -152,3 +152,32 @@ func genScriptLab(t *rapid.T) *world.Plan {
 	p.Lab = lab
 	return p
 }
+
+// C24: the real lnd adapter over the simulated LND. Hostile makers issue fee and
+// claim invoices with foreign destinations, odd amounts and CLTV values; honest
+// pairs run with both spellings of the channel id.
+func init() {
+	register(&PropDef{
+		ID: "C24",
+		Gen: func(t *rapid.T, tier string) *world.Plan {
+			var p *world.Plan
+			if rapid.IntRange(0, 2).Draw(t, "honest-pair") == 0 {
+				p = genPlan(t, genOpts{flavors: []string{"lnd"}, adapters: 100, sched: true, maxNet: 1, maxLN: 1, maxCrashes: 1, secondOp: true, duration: []int{300, 600}, restartMs: []int{500, 5000}})
+				return p
+			}
+			p = advMakerPlan(t, nil, rapid.Bool().Draw(t, "deviate"))
+			p.Scn.Flavor[0], p.Scn.Adapter[0] = "lnd", "lnd"
+			cfg := p.AdvCfg
+			if rapid.IntRange(0, 2).Draw(t, "foreign-dest") == 0 {
+				cfg.Inv.Dest = "third"
+			}
+			if rapid.IntRange(0, 3).Draw(t, "foreign-fee-dest") == 0 {
+				cfg.FeeDest = "third"
+			}
+			p.Scn.Channels = append(p.Scn.Channels, world.ChannelCfg{Block: 200, Tx: 2, Out: 0, A: 0, B: 2, BalA: 2_000_000_000, BalB: 2_000_000_000})
+			return p
+		},
+		Monitors:   world.MonitorsFor("C24"),
+		Nontrivial: func(r *world.Result) bool { return probe(r, "C24:request-checked") },
+	})
+}
